@@ -11,21 +11,64 @@ struct Case
 {
     std::vector<Workload> workloads;
     uint8_t repetitions{2};
+    uint8_t fromPrototypes{0};  // 1: every workload copy-constructs its encoder / decoder / status tracker from objects with a history
+                                // (built on the main thread before the threads start) instead of default-constructing them
     void io(Ar& a)
     {
         a.vec("workloads", workloads);
         a.num("repetitions", repetitions);
+        a.optionalNum("fromPrototypes", fromPrototypes);
     }
 };
 
 static Verdict runCase(const Case& c, Info& info)
 {
     const size_t n = c.workloads.size();
+    std::unique_ptr<Prototypes> protoOwner;
+    if (c.fromPrototypes)
+    {
+        protoOwner = std::make_unique<Prototypes>();
+        Prototypes& p = *protoOwner;
+        // status tracker that already knows the devices / interfaces the workloads are going to report on
+        for (const auto& w : c.workloads)
+            if (w.kind == 3)
+            {
+                size_t taken = 0;
+                for (size_t i = 0; i < w.status.size() && taken < 6; ++i)
+                    if (w.status[i].kind <= 1)
+                    {
+                        StatusOp first = w.status[i];
+                        first.kind = 0;  // the device first, so that the interface is accepted
+                        p.status.update(makeStatusUpdate(first, 5000 + i));
+                        p.status.update(makeStatusUpdate(w.status[i], 6000 + i));
+                        ++taken;
+                    }
+            }
+        // encoder that has emitted frames, decoder that holds an unfinished message
+        p.enc.setDeviceId(9);
+        p.enc.setStreamId(9);
+        PacketRecipe r;
+        r.kind = rkCan;
+        r.len = 8;
+        lib::Packet pk = buildPacket(r, 1);
+        p.enc.encode(pk, lib::DataContext{0, 1500});
+        FrameRecipe f;
+        f.dev = 1;
+        f.stream = 0;
+        MsgRecipe m;
+        m.seg = 1;
+        m.len = 20;
+        f.msgs.push_back(m);
+        Bytes fb = f.build();
+        p.dec.decode(fb.data(), fb.size());
+        info.tag("objects_copied_from_prototypes_with_a_history");
+    }
+    const Prototypes* proto = protoOwner.get();
     std::vector<uint64_t> reference(n);
     for (size_t i = 0; i < n; ++i)
     {
         OutputSink out;
-        runWorkload(c.workloads[i], out);
+        runWorkload(c.workloads[i], out, proto);
         reference[i] = out.digest;
     }
     const int reps = std::max<int>(1, c.repetitions);
@@ -42,7 +85,7 @@ static Verdict runCase(const Case& c, Info& info)
             for (int r = 0; r < reps; ++r)
             {
                 OutputSink out;
-                runWorkload(c.workloads[i], out);
+                runWorkload(c.workloads[i], out, proto);
                 got[i][static_cast<size_t>(r)] = out.digest;
             }
         });
@@ -87,6 +130,7 @@ static rc::Gen<Case> genCase(int tier)
         if (*range<int>(0, 3) != 0)
             c.workloads[1].kind = c.workloads[0].kind, c.workloads[1] = *rc::gen::suchThat(genWorkload(tier), [&](const Workload& w) { return w.kind == c.workloads[0].kind; });
         c.repetitions = *range<uint8_t>(1, 3);
+        c.fromPrototypes = *rc::gen::weightedElement<uint8_t>({{2, 0}, {1, 1}});
         return c;
     });
 }
